@@ -51,7 +51,21 @@ type lifeFS struct {
 	stuck *int32
 }
 
+var (
+	lifeHold    int32
+	lifeEntered chan struct{}
+	lifeLetGo   chan struct{}
+)
+
 func (f lifeFS) RemoveAll(p string) error {
+	if atomic.LoadInt32(&lifeHold) != 0 {
+		// the removal of the directory takes a while: the harness looks the unit up in the meantime
+		select {
+		case lifeEntered <- struct{}{}:
+		default:
+		}
+		<-lifeLetGo
+	}
 	if atomic.LoadInt32(f.stuck) != 0 {
 		return fmt.Errorf("unlinkat %s: device or resource busy", p)
 	}
@@ -384,6 +398,45 @@ func (lw *lifeWorld) runUnit(u lifeUnit) (o lifeObs) {
 			o.Err = "a failed release made the unit unknown"
 		}
 		finish("release")
+	case "racedir":
+		// another client looks the unit up while its release is removing the directory
+		id, err = lw.submit("stuckwork", "")
+		if err != nil {
+			o.Err = "submit: " + err.Error()
+			return
+		}
+		time.Sleep(20 * time.Millisecond)
+		lifeEntered, lifeLetGo = make(chan struct{}, 1), make(chan struct{})
+		atomic.StoreInt32(&lifeHold, 1)
+		relDone := make(chan error, 1)
+		go func() {
+			_, e := lw.cmd(map[string]interface{}{"subcommand": "release", "unitid": id}, "")
+			relDone <- e
+		}()
+		select {
+		case <-lifeEntered:
+		case <-time.After(2 * time.Second):
+		}
+		go func() { _, _ = lw.cmd(map[string]interface{}{"subcommand": "status", "unitid": id}, "") }()
+		time.Sleep(60 * time.Millisecond)
+		atomic.StoreInt32(&lifeHold, 0)
+		close(lifeLetGo)
+		var rerr error
+		select {
+		case rerr = <-relDone:
+		case <-time.After(10 * time.Second):
+			o.Err = "release did not return"
+		}
+		time.Sleep(50 * time.Millisecond)
+		close(stopPoll)
+		if rerr != nil {
+			o.Err = "release: " + rerr.Error()
+		}
+		_, serr := lw.cmd(map[string]interface{}{"subcommand": "status", "unitid": id}, "")
+		o.KnownAfter = serr == nil
+		_, derr := os.Stat(path.Join(lw.vw.w.dataDir, id))
+		o.DirAfter = derr == nil
+		o.Final = [2]int64{2, 0}
 	case "burst":
 		ids := make([]string, u.N)
 		var wg sync.WaitGroup
@@ -467,21 +520,18 @@ func lifeApply(op string, raw json.RawMessage) interface{} {
 }
 
 func lifeGen(v *verifRun) {
-	kinds := []string{"success", "fail", "cancel", "finishline", "inproc", "burst", "stuckdir"}
+	kinds := []string{"success", "fail", "cancel", "finishline", "inproc", "burst", "stuckdir", "racedir"}
 	for i := 0; i < v.n; i++ {
 		var a lifeArgs
-		n := 5 + v.rng.Intn(4)
-		stuckUsed := false
+		n := 7 + v.rng.Intn(3)
 		for k := 0; k < n; k++ {
-			kind := kinds[v.rng.Intn(len(kinds))]
-			if i == 0 && k < len(kinds) {
+			kind := kinds[v.rng.Intn(len(kinds)-2)] // the two fault scenarios are placed below
+			if i == 0 && k < len(kinds)-2 {
 				kind = kinds[k]
 			}
-			if kind == "stuckdir" {
-				if stuckUsed {
-					kind = "inproc"
-				}
-				stuckUsed = true // one per case: the fault switch is shared
+			if k == n-1 {
+				// one fault scenario per case (their switches are shared by the whole case)
+				kind = []string{"stuckdir", "racedir"}[i%2]
 			}
 			u := lifeUnit{Kind: kind, N: 1 + v.rng.Intn(9), M: v.rng.Intn(5)}
 			if kind == "burst" {
